@@ -187,7 +187,7 @@ def rsGetall (st : RS) : Except Err (List Int) := forEnumFrom (rsMap st) 0 st.la
 structure SW where
   classes : List Int
   apply : List Bool
-deriving Repr
+deriving Repr, DecidableEq
 
 /-- `__init__`; `us` = `rng.random(size=n)`, `news` = `rng.integers(0, nc, size=n)` -/
 def swCtor (labels : List Int) (p : Rat) (us : List Rat) (news : List Int) : Except Err SW :=
@@ -395,7 +395,7 @@ inductive Enc where
   | cls (y : Int)          -- the label itself (smoothing == 0)
   | scalar (q : Rat)       -- binary case
   | vec (v : List Rat)
-deriving Repr
+deriving Repr, DecidableEq
 
 def lsCtor (s : Rat) : Except Err Unit := if 0 ≤ s ∧ s ≤ 1 then .ok () else .error .assertion
 
